@@ -9,6 +9,7 @@ CONSTANTS
   AnnModes = {"none"}
   WithProxyDel = FALSE
   CfiLayouts = {"proc_all", "proc_each", "proc_rs"}
+  Isa = "x64"
   Emit = TRUE
 INVARIANT Inv
 CHECK_DEADLOCK FALSE
